@@ -13,6 +13,7 @@ import sys
 import traceback
 
 sys.setrecursionlimit(10000)
+REPO_SRC = (os.environ.get("VERIF_REPO_SRC") or "/repo/src").rstrip("/") + "/"
 
 
 def load_module(path):
@@ -47,8 +48,8 @@ def main():
         if event == "call":
             co = frame.f_code
             f = co.co_filename
-            if "/repo/src/" in f:
-                seen.add(f.split("/repo/src/")[1] + ":" + co.co_qualname)
+            if REPO_SRC in f:
+                seen.add(f.split(REPO_SRC)[1] + ":" + co.co_qualname)
             elif f.startswith("<adaptix") or "adaptix" in f and f.startswith("<"):
                 seen.add("<generated>:" + co.co_name)
         return None
